@@ -62,7 +62,7 @@ struct Run<'a> {
     obs: Observation,
 }
 
-const ARRIVE: Duration = Duration::from_secs(5);
+const ARRIVE: Duration = Duration::from_secs(10);
 
 impl<'a> Run<'a> {
     fn enabled(&self) -> Vec<Action> {
@@ -126,7 +126,7 @@ impl<'a> Run<'a> {
                     return;
                 }
             }
-            let limit = if self.stop_sent { Duration::from_secs(2) } else { ARRIVE };
+            let limit = if self.stop_sent { Duration::from_secs(5) } else { ARRIVE };
             if began.elapsed() > limit {
                 if self.stop_sent || self.bounded {
                     self.obs.complaints.push(format!(
@@ -208,8 +208,8 @@ impl<'a> Run<'a> {
                 if self.e.count_lines("readyok") >= want {
                     break;
                 }
-                if began.elapsed() > Duration::from_secs(2) {
-                    self.obs.complaints.push("isready was not answered with readyok within 2 s".into());
+                if began.elapsed() > Duration::from_secs(5) {
+                    self.obs.complaints.push("isready was not answered with readyok within 5 s".into());
                     break;
                 }
                 self.e.settle(Duration::from_millis(1));
@@ -358,7 +358,7 @@ pub fn execute(script: &[String], prefix: &[usize], id: u64) -> Observation {
             r.obs.complaints.push(format!("engine reported: {e}"));
         }
         r.e.send("quit");
-        if r.e.wait_exit(Duration::from_secs(2)).is_none() {
+        if r.e.wait_exit(Duration::from_secs(5)).is_none() {
             r.obs.complaints.push("engine did not exit on quit".into());
         }
     }
